@@ -13,6 +13,7 @@
 from __future__ import annotations
 
 import copy
+import contextlib
 import io
 from typing import Any, Dict, List, Optional, Tuple
 
@@ -268,9 +269,13 @@ def drive_async(agen: Any) -> List[Any]:
             return out
 
 
-def text_unit(unit: Tuple[int, Tuple[int, ...], str]) -> Part:
+NOISE = ["", "   ", "# a comment", "  can0  7E8   [0]", "(1000.000000) can0 7E8#", "(1000.000001) can0 7E8#R", "interface = can0"]
+
+
+def text_unit(unit: Tuple[Any, ...]) -> Part:
     from odxtools.isotp_state_machine import IsoTpStateMachine
-    tx_dl, lens, fmt = unit
+    tx_dl, lens, fmt = unit[:3]
+    noise = bool(unit[3]) if len(unit) > 3 else False
     part = Part()
     frames: List[Tuple[int, bytes]] = []
     for k, n in enumerate(lens):
@@ -280,16 +285,26 @@ def text_unit(unit: Tuple[int, Tuple[int, ...], str]) -> Part:
         frames.append((FOREIGN, bytes([0x02, 0x3E, 0x00])))
     direct, exc = feed(IsoTpStateMachine([IDS[0], IDS[1]]), frames)
     text = render(frames, fmt)
+    tag = fmt
+    if noise:  # lines that are not frames (blank, comments, empty and remote frames) between the frames are skipped
+        lines = text.splitlines()
+        mixed: List[str] = []
+        for k, ln in enumerate(lines):
+            mixed.append(ln)
+            mixed.append(NOISE[k % len(NOISE)])
+        text = "\n".join(mixed) + "\n"
+        tag = fmt + "+noise"
     part.count("text_streams")
-    case = {"mode": "text", "tx_dl": tx_dl, "lens": list(lens), "fmt": fmt}
+    case = {"mode": "text", "tx_dl": tx_dl, "lens": list(lens), "fmt": fmt, "noise": noise}
     try:
-        via_text = [(i, bytes(t)) for i, t in drive_async(IsoTpStateMachine([IDS[0], IDS[1]]).read_telegrams(io.StringIO(text)))]
+        with contextlib.redirect_stderr(io.StringIO()):
+            via_text = [(i, bytes(t)) for i, t in drive_async(IsoTpStateMachine([IDS[0], IDS[1]]).read_telegrams(io.StringIO(text)))]
     except Exception as e:  # noqa
-        part.violation(f"C12/text/{fmt}/raises", case, f"{type(e).__name__}: {e}")
+        part.violation(f"C12/text/{tag}/raises", case, f"{type(e).__name__}: {e}")
         return part
-    part.add("nontrivial", ("text", fmt, tx_dl, tuple(size_class(n, tx_dl) for n in lens)))
+    part.add("nontrivial", ("text", tag, tx_dl, tuple(size_class(n, tx_dl) for n in lens)))
     if exc is None and via_text != direct:
-        part.violation(f"C12/text/{fmt}/differs-from-frames", case,
+        part.violation(f"C12/text/{tag}/differs-from-frames", case,
                        f"text: {[(hex(i), len(t)) for i, t in via_text]} frames: {[(hex(i), len(t)) for i, t in direct]}")
     return part
 
@@ -311,11 +326,14 @@ def active_unit(unit: Tuple[Tuple[Tuple[str, ...], ...], int]) -> Part:
     scripts = scripts_for(combo)
     n = len(combo)
     tx_ids = [0x7E0, 0x7E1, 0x18DA10F1][:n]
-    for sched in ("sequential", "round-robin"):
+    for sched in ("sequential", "round-robin", "sequential/ids-descending", "round-robin/ids-descending"):
         bus = FakeBus()
-        dec = IsoTpActiveDecoder(bus, list(IDS[:n]), tx_ids, padding_size=padding)  # type: ignore[arg-type]
+        if sched.endswith("descending"):  # the pairing of receive and transmit IDs is by position, whatever their order
+            dec = IsoTpActiveDecoder(bus, list(reversed(IDS[:n])), list(reversed(tx_ids)), padding_size=padding)  # type: ignore[arg-type]
+        else:
+            dec = IsoTpActiveDecoder(bus, list(IDS[:n]), tx_ids, padding_size=padding)  # type: ignore[arg-type]
         order: List[Tuple[int, bytes]] = []
-        if sched == "sequential":
+        if sched.startswith("sequential"):
             for i in range(n):
                 order += [(i, f) for f in scripts[i][0]]
         else:
@@ -427,7 +445,8 @@ def run(ctx: Ctx) -> None:
     for fmt in ("normal", "log"):
         for tx_dl in (8, 12, 64):
             for lens in ((5,), (20,), (5, 20), (118, 7, 30), (7, 8, 63, 4095 if not q else 300)):
-                tunits.append((tx_dl, lens, fmt))
+                tunits.append((tx_dl, lens, fmt, False))
+                tunits.append((tx_dl, lens, fmt, True))
     pmap(ctx, text_unit, tunits)
     # (e)
     aunits = []
@@ -460,7 +479,7 @@ def replay(case: Any) -> List[Tuple[str, str]]:
     elif mode == "seq":
         p = seq_unit((case["tx_dl"], tuple(case["lens"])))
     elif mode == "text":
-        p = text_unit((case["tx_dl"], tuple(case["lens"]), case["fmt"]))
+        p = text_unit((case["tx_dl"], tuple(case["lens"]), case["fmt"], case.get("noise", False)))
     elif mode == "active":
         p = active_unit((tuple(tuple(c) for c in case["combo"]), case["padding"]))
     else:
